@@ -289,8 +289,8 @@ CHECKS = {
         'assumptions': ['theorems are about the reference evaluator; the implementation is tied to it on the generated programs only', 'names in the naming hypotheses (Names) are plain identifiers; pattern parameters are not modelled'],
     },
     'C07': {
-        'lean_modules': ['Pangaea.Theorems.C07', 'Pangaea.Theorems.C07Any'],
-        'theorem_modules': ['Pangaea.Theorems.C07', 'Pangaea.Theorems.C07Any'],
+        'lean_modules': ['Pangaea.Theorems.C07', 'Pangaea.Theorems.C07Any', 'Pangaea.Theorems.C07Inventory'],
+        'theorem_modules': ['Pangaea.Theorems.C07', 'Pangaea.Theorems.C07Any', 'Pangaea.Theorems.C07Inventory'],
         'theorems': ['Pangaea.C07.' + t for t in ['infix_left', 'infix_right', 'shortcut_right', 'prefix_operand', 'assigned', 'if_condition', 'if_then', 'if_else', 'range_start', 'range_stop', 'range_step',
                      'elems_head', 'elems_head_unpacked', 'elems_tail', 'arr_literal', 'args_head', 'args_head_unpacked_arr', 'args_head_unpacked_obj', 'args_tail', 'kws_head', 'kws_tail',
                      'call_receiver', 'call_chain_argument', 'call_arguments', 'call_keyword_arguments', 'litcall_receiver', 'litcall_callee', 'pair_value_named', 'pair_value_computed', 'pair_key_computed',
